@@ -231,7 +231,9 @@ void record_op(vf::Trace& tr, const Field& f, Gen& g, const Effort& ef, bool sin
   evals += s.evals;
 }
 
-// set_characteristic / initialize / init with prime, composite and degenerate arguments around n
+// set_characteristic / initialize / init with prime, composite and degenerate arguments around n.  Only the outcome of
+// each call is logged; after a refusal the object is not used again before an accepted call (the shared classes are
+// re-initialized by the next record_elem).
 template <class Set>
 void record_setchar(vf::Trace& tr, const std::string& cls, const char* via, long lo0, long hi0, const std::vector<std::pair<long, long>>& tries, Set&& set, long& evals) {
   RecordSink s;
